@@ -74,6 +74,10 @@ def wrapI32 (z : Int) : Int :=
   let m := z % (2:Int)^32
   if m < (2:Int)^31 then m else m - (2:Int)^32
 
+def wrapI64 (z : Int) : Int :=
+  let m := z % (2:Int)^64
+  if m < (2:Int)^63 then m else m - (2:Int)^64
+
 /-! ### IEEE special values -/
 
 /-- a C `double`/`float` value: finite (exact rational; −0 is identified with 0), NaN, ±∞ -/
